@@ -6,6 +6,8 @@ package vmodel
 import (
 	"net"
 	"net/http"
+
+	"github.com/buchgr/bazel-remote/v2/zzverif/vsym"
 )
 
 // MuxRoutes records what was registered on any ServeMux.
@@ -26,7 +28,8 @@ func Net_Listen(network, address string) (net.Listener, error) { return nil, nil
 // Http_Error: status code and a body; headers are not modelled further.
 func Http_Error(w http.ResponseWriter, msg string, code int) {
 	w.WriteHeader(code)
-	_, _ = w.Write([]byte(msg))
+	// the text of an error body is not part of any property: some bytes
+	_, _ = w.Write(vsym.MakeBytes(16))
 }
 
 // Credentials carried by the request under test (Basic auth header).
